@@ -103,6 +103,8 @@ class WriterHarness(thrx.Harness):
                     'lines': visible_lines(wpath, {'writeCachedDataPoints', 'writeForever', 'shutdownModifyUpdateSpeed'}, pat)}
     if self.p.get('see_buckets'):
       vis[os.path.join(lib, 'util.py')] = {'drain', 'peek', 'setCapacityAndFillRate'}
+    if any(op[0] == 'report' for op in self.p.get('reactor', ())):
+      vis[os.path.join(lib, 'instrumentation.py')] = {'recordMetrics'}
     return vis
 
   def setup(self, s):
@@ -154,6 +156,12 @@ class WriterHarness(thrx.Harness):
       carbon.writer.time = self.vt
     else:
       exec(code, carbon.writer.__dict__)
+    self.reported = {}
+    self.reports = 0
+    # a lock of the library that both threads take must be the scheduler's (a real one would block the baton holder)
+    self.saved_stats_lock = getattr(instrumentation, 'stats_lock', None)
+    if self.saved_stats_lock is not None:
+      instrumentation.stats_lock = thrx.SchedLock(s)
     self.reactor = ReactorDouble(p.get('passes'))
     carbon.writer.reactor = self.reactor
     self.writer = carbon.writer
@@ -211,6 +219,8 @@ class WriterHarness(thrx.Harness):
     (carbon.util.time, carbon.util.sleep, carbon.cache.time, carbon.writer.time,
      carbon.writer.reactor, instrumentation.increment, state.database) = self.saved
     carbon.cache.choice = self.saved_choice
+    if getattr(self, 'saved_stats_lock', None) is not None:
+      instrumentation.stats_lock = self.saved_stats_lock
     try:
       tlog.removeObserver(self.observer)
     except ValueError:
@@ -236,6 +246,28 @@ class WriterHarness(thrx.Harness):
         self.stored.append((m, ts, v, not self.stop_initiated))
       elif op[0] == 'advance':
         s.now += op[1]
+      elif op[0] == 'report':
+        # the reactor thread's periodic instrumentation tick, the real recordMetrics(): it reports and clears the counters
+        # the writer thread is incrementing.  Only the cache_record() shim is replaced (the self-metrics are collected
+        # instead of being stored into the cache under test).
+        s.point(('op', 'report'))
+        from carbon import instrumentation as instr
+        self.settings['program'] = 'carbon-cache'
+
+        def shim(metric, value):
+          if isinstance(value, (int, float)):
+            self.reported[metric] = self.reported.get(metric, 0) + value
+        saved_rec = instr.cache_record
+        instr.cache_record = shim
+        before = {k: v for k, v in instr.stats.items() if not isinstance(v, list)}
+        try:
+          instr.recordMetrics()
+        finally:
+          instr.cache_record = saved_rec
+          self.settings['program'] = 'carbon-verif'
+        self.reports += 1
+        self.elog.append(('report', before, {k: v for k, v in self.reported.items() if k in before},
+                          {k: v for k, v in instr.stats.items() if not isinstance(v, list)}))
       elif op[0] == 'stop':
         s.point(('op', 'stop-initiated'))
         self.stop_initiated = True
@@ -336,6 +368,15 @@ class WriterHarness(thrx.Harness):
       else:
         return ('silent-drop', 'batch %r drained for %s was neither written nor counted as dropped nor '
                 'reported as an error (events after the drain: %r)' % (pts, m, b['events'][:6]))
+    if self.reports:
+      # counters survive the instrumentation tick: what the ticks reported plus what is still in the counter table is
+      # what was counted
+      from carbon import instrumentation as instr
+      for cname in ('droppedCreates', 'errors', 'creates', 'committedPoints'):
+        visible = self.reported.get(cname, 0) + instr.stats.get(cname, 0)
+        if visible != stats.get(cname, 0):
+          return ('counter-lost', '%s was incremented by %r in total, but the instrumentation ticks reported %r and the counter table '
+                  'holds %r' % (cname, stats.get(cname, 0), self.reported.get(cname, 0), instr.stats.get(cname, 0)))
     if stats.get('committedPoints', 0) != writes_ok:
       return ('miscount', 'committedPoints=%r but %d datapoints were successfully written' % (
         stats.get('committedPoints', 0), writes_ok))
